@@ -113,6 +113,8 @@ def real_step(cur, op):
             return enc(cur.as_dict()), cur
         if o == "clone_eq":
             return (cur.clone() == cur), cur
+        if o == "clone_swap":  # continue on the clone; the oracle watches the original
+            return None, cur.clone()
         if o == "eq":
             return (cur == dec(op["v"])), cur
         if o == "from_dict":
@@ -327,6 +329,8 @@ def ref_step(root, op):
             return ("as_dict", ref_as_dict(root)), root, False
         if o == "clone_eq":
             return True, root, False
+        if o == "clone_swap":
+            return None, root, False
         if o == "eq":
             return (node_to_ns(root) == dec(op["v"])), root, False
         if o == "from_dict":
@@ -380,10 +384,15 @@ def oracle_run(ops):
     root = Node()
     devs = []
     tainted = False  # after a through-dict deviation the two states differ legitimately
+    originals = []   # (object that was cloned, its canonical form at clone time)
     for i, op in enumerate(ops):
-        import copy
-
+        if op["op"] == "clone_swap":
+            originals.append((cur, json.dumps(enc(cur), sort_keys=True)))
         r_real, cur = real_step(cur, op)
+        for obj, snap in originals:
+            if json.dumps(enc(obj), sort_keys=True) != snap:
+                devs.append((i, False, "a write to the clone changed the namespace it was cloned from"))
+                return devs
         obs, root, through = ref_step(root, op)
         if tainted:
             through = True
@@ -500,8 +509,10 @@ def gen_op(rng):
         return {"op": "items", "branches": rng.random() < 0.5}
     if r < 0.89:
         return {"op": "as_dict"}
-    if r < 0.92:
+    if r < 0.905:
         return {"op": "clone_eq"}
+    if r < 0.92:
+        return {"op": "clone_swap"}
     if r < 0.94:
         return {"op": "eq", "v": {"n": gen_value_ns(rng)}}
     if r < 0.97:
